@@ -40,7 +40,7 @@ from vlib import core, tools
 from vlib.core import Check, Discard, Inconclusive, Violation
 from vlib.elf import Elf, ElfError, ET_REL
 
-CORPUS_VERSION = "c06-v4"
+CORPUS_VERSION = "c06-v5"
 REPLAYS = 20
 NEED = 2
 
@@ -303,8 +303,7 @@ def _build_script(d):
     tools.write(f"{d}/s.ld", """ENTRY(_start)
 SECTIONS {
   . = 0x600000;
-  .text : { *(.text .text.*) }
-  etext_sym = .;
+  .text : { *(.text .text.*) etext_sym = .; }
   . = ALIGN(0x1000);
   .rodata : { *(.rodata .rodata.*) }
   . = ALIGN(0x1000);
